@@ -26,6 +26,7 @@ from . import hillclimb_allocation
 from . import live_range
 from . import numeric_util
 from .errors import AllocationError
+from .errors import VelaError
 from .greedy_allocation import allocate_live_ranges as greedy_allocate_live_ranges
 from .live_range import LiveRange
 from .live_range import LiveRangeGraph
@@ -264,6 +265,15 @@ def allocate_tensors(
             for lr in lrs.ranges.values():
                 lr.set_address(None)
             return alloc_ok
+
+        for mem_type in mem_type_set:
+            # the total becomes the published size of the memory type's tensor, which may not exceed the hard limit
+            # (accesses are checked against the same limit, but the total also counts alignment and brick padding)
+            if total_sz > arch.mem_type_size(mem_type):
+                raise VelaError(
+                    f"The {mem_type.name} allocation of {total_sz} bytes exceeds the {arch.mem_type_size(mem_type)} bytes "
+                    "that are available for it"
+                )
 
         if sg.memory_used.get(mem_area, 0) == 0:
             sg.memory_used[mem_area] = total_sz
